@@ -92,7 +92,7 @@ Definition extract_headers (l : language) (tokens : list token) : res (list head
   match headers_of_patterns tokens (lang_patterns l) with
   | Err k => Err k
   | OK hs => match l with
-             | LJava => OK (filter (fun h => negb (java_drop tokens h)) hs)
+             | LJava | LCSharp => OK (filter (fun h => negb (java_drop tokens h)) hs)
              | _ => OK hs
              end
   end.
